@@ -8,12 +8,14 @@ WT=/tmp/seed_eval_$ID
 git -C /repo worktree remove --force "$WT" >/dev/null 2>&1
 git -C /repo worktree add -q --detach "$WT" HEAD || exit 3
 echo "== demo without the change"
-(cd "$WT" && sed "s#/tmp/seed2*/wt_[A-Za-z0-9_]*#$WT#g" "$OUT/demo.py" > /tmp/seed/demo_$ID.py && PYTHONPATH="$WT" timeout 600 /venv/bin/python /tmp/seed/demo_$ID.py > /tmp/seed/demo_$ID.base.log 2>&1; echo "exit=$?"; tail -2 /tmp/seed/demo_$ID.base.log)
+DD=/tmp/seed_eval_demo_$ID
+rm -rf "$DD"; mkdir -p "$DD"
+(cd "$WT" && sed "s#/tmp/seed2*/wt_[A-Za-z0-9_]*#$WT#g" "$OUT/demo.py" > "$DD/demo.py" && PYTHONPATH="$WT" timeout 900 /venv/bin/python "$DD/demo.py" > "$DD/base.log" 2>&1; echo "exit=$?"; tail -2 "$DD/base.log")
 git -C "$WT" apply "$OUT/patch.diff" || { echo "PATCH DOES NOT APPLY"; git -C /repo worktree remove --force "$WT"; exit 3; }
 echo "== test suite with the change"
 (cd "$WT" && /venv/bin/python -m pytest -q -p no:cacheprovider 2>&1 | tail -1)
 echo "== demo with the change"
-(cd "$WT" && PYTHONPATH="$WT" timeout 600 /venv/bin/python /tmp/seed/demo_$ID.py > /tmp/seed/demo_$ID.mut.log 2>&1; echo "exit=$?"; tail -3 /tmp/seed/demo_$ID.mut.log)
+(cd "$WT" && PYTHONPATH="$WT" timeout 900 /venv/bin/python "$DD/demo.py" > "$DD/mut.log" 2>&1; echo "exit=$?"; tail -3 "$DD/mut.log")
 git -C /repo worktree remove --force "$WT"
 echo "== checks against the change (applied to /repo, undone afterwards)"
 git -C /repo apply "$OUT/patch.diff" || exit 3
